@@ -3,7 +3,7 @@
 # prints one line per seed: caught (exit 1 with a VIOLATION line) / MISSED / UNDECIDED, and whether a replay confirmed natively
 set -u
 cd /verif
-seeds=("$@"); [ ${#seeds[@]} -eq 0 ] && seeds=($(ls seeded))
+seeds=("$@"); [ ${#seeds[@]} -eq 0 ] && seeds=($(cd seeded && ls -d */ | tr -d /))
 for s in "${seeds[@]}"; do
   prop=${s%%-*}
   out=$(timeout 2400 tools/seed_eval.sh /verif/seeded/$s $prop 2>&1 | grep -v ^WARNING)
